@@ -54,11 +54,11 @@ def cl_value(cl, total):
     return {'absent': None, '0': 0, 'eq': total, 'minus1': total - 1, 'plus1': total + 1, '100': 100}[cl]
 
 
-def run_message(r, direction, method, reqtr, info, status, clv, pattern, end, pads):
+def run_message(r, direction, method, reqtr, info, status, clv, pattern, end, pads, cfg=None):
     """pads: list of pad lengths (or None) per DATA frame."""
     total = sum(pattern)
     client = direction == 'response'
-    s = Solo(client)
+    s = Solo(client, **(cfg or {}))
     s.start()
     rejected = False
     steps = []
@@ -162,7 +162,14 @@ def run_case(data):
     else:
         end = ch.pick(['data', 'trailers'])
     pads = [ch.pick([None, None, 0, 1, 17, 255]) for _ in pattern]
-    run_message(r, direction, method, reqtr, info, status, clv, pattern, end, pads)
+    # the rule is about framing and lengths: it holds whatever the header-processing switches say
+    cfg = {}
+    bits = ch.u8()
+    if bits & 1:
+        cfg = {'header_encoding': ch.pick(['utf-8', 'latin-1']) if bits & 2 else None,
+               'validate_inbound_headers': not bits & 4, 'normalize_inbound_headers': not bits & 8}
+        r.labels.add('non-default-config')
+    run_message(r, direction, method, reqtr, info, status, clv, pattern, end, pads, cfg)
     r.nontrivial = clv is not None or method == 'HEAD' or status in ('204', '304')
     r.labels.add(direction)
     if any(p is not None for p in pads):
